@@ -13,10 +13,10 @@ suite_fail=$(( $(cargo test --workspace --no-fail-fast --offline 2>&1 | grep -cE
 echo "== demo with the change" >> "$out/confirm.log"
 cargo test --offline --test "$demoname" 2>&1 | grep -E "^test result" >> "$out/confirm.log"; 
 with=$(cargo test --offline --test "$demoname" 2>&1 | grep -cE "^test result: FAILED")
-git stash push -q -- src
+git diff -- src > /tmp/confirm_$id.diff; git apply -R /tmp/confirm_$id.diff   # (not git stash: the stash is shared between worktrees)
 echo "== demo without the change" >> "$out/confirm.log"
 cargo test --offline --test "$demoname" 2>&1 | grep -E "^test result" >> "$out/confirm.log"
 without=$(cargo test --offline --test "$demoname" 2>&1 | grep -cE "^test result: ok")
-git stash pop -q
+git apply /tmp/confirm_$id.diff; rm -f /tmp/confirm_$id.diff
 cp patch.diff "$out/patch.diff"; cp "$demo" "$out/"; [ -f NOTES.md ] && cp NOTES.md "$out/NOTES.md"
 echo "build_rc=$b other_suite_failures=$suite_fail demo_fails_with=$with demo_passes_without=$without" | tee -a "$out/confirm.log"
